@@ -1,10 +1,14 @@
 ﻿from nsl import Visitor
 
 
-def ValidateSwizzleMask(mask):
+def ValidateSwizzleMask(mask, componentCount=4):
     from .. import Utility, Errors
 
     if any([m not in "xyzwrgba" for m in mask]):
+        Errors.ERROR_INVALID_SWIZZLE_MASK.Raise()
+
+    # Every selector must name a component the type actually has
+    if any(["xyzwrgba".index(m) % 4 >= componentCount for m in mask]):
         Errors.ERROR_INVALID_SWIZZLE_MASK.Raise()
 
     if Utility.ContainsAnyOf(mask, "xyzw") and Utility.ContainsAnyOf(
@@ -26,11 +30,20 @@ class ValidateSwizzleMaskVisitor(Visitor.DefaultVisitor):
     def v_MemberAccessExpression(self, expr, ctx=None):
         import nsl.Errors
 
+        # The parent can contain further swizzles (v.xy.x, a[v.x].y)
+        self.v_Visit(expr.GetParent(), ctx)
+
         t = expr.GetParent().GetType()
 
-        with nsl.Errors.CompileExceptionToErrorHandler(self.errorHandler):
+        def OnError():
+            self.valid = False
+
+        with nsl.Errors.CompileExceptionToErrorHandler(
+            self.errorHandler, OnError
+        ):
             if t.IsPrimitive() and (t.IsVector() or t.IsScalar()):
-                ValidateSwizzleMask(expr.GetMember())
+                componentCount = t.GetComponentCount() if t.IsVector() else 1
+                ValidateSwizzleMask(expr.GetMember().GetName(), componentCount)
 
 
 def GetPass():
